@@ -9,5 +9,17 @@ HOOKS = {
 NOTES = ("Technique: contract-based deductive verification of the real code. Layer P = own AST->SMT VC generator over the real function bodies "
          "(unbounded); layer L = lemmas (SMT induction, Lean/Mathlib); layer B = runtime contracts over a bounded universe (labelled bounded, never counted as proved). "
          "See DESIGN.md.")
-CLAIMS = {}
+CLAIMS = {
+    "C01": dict(
+        level="other",
+        text=("Mixed. PROVED for all inputs (unbounded dimension, arbitrary index sets): the real update_adaptive_combi / __refine_scheme / query methods, "
+              "symbolically executed from the working tree, preserve the index-set invariant (entries>=lmin, old/active disjoint, backward neighbours old "
+              "=> downward closed, no active index with a forward neighbour) for refinable and non-refinable requests; Lean/Mathlib lemma: for ANY finite index set "
+              "the stencil coefficients of the grids dominating l sum to [l in I] (inclusion-exclusion, hence sum 1). BOUNDED (not proof): initialisation, the "
+              "closed-form scheme, and the link between get_coefficients_to_index_set and the Lean coeff function are checked exhaustively on small universes."),
+        note=("Assumes the pyvc encoding of Python (ints mathematical, tuple == array in canonical form), A-ITER; z3/cvc5/Lean kernels; "
+              "initialisation (getGrids recursion) and get_coefficients_to_index_set are only covered by the bounded layer."),
+        technique="deductive verification (own AST->SMT VC generator, z3/cvc5) + Lean 4/Mathlib lemma; bounded runtime contracts as stand-in",
+    ),
+}
 NOT_APPLICABLE = {}
